@@ -47,6 +47,10 @@ fn registry() -> Vec<PartDesc> {
     v.push(desc::<props::c18::C18Elect>("exploration"));
     v.push(desc::<props::c18::C18Table>("exploration"));
     v.push(desc::<props::c18::C18Dup>("exploration"));
+    v.push(desc::<props::c19::C19Framing>("exploration"));
+    v.push(desc::<props::c19::C19Codec>("exploration"));
+    v.push(desc::<props::c19::C19Decode>("exploration"));
+    v.push(desc::<props::c19::C19Stream>("exploration"));
     #[cfg(not(feature = "v2"))]
     v.push(foreign("C16", "e1-v2", "v2", "exploration"));
     #[cfg(feature = "async-trait")]
@@ -121,6 +125,18 @@ fn main() {
             let v: serde_json::Value = serde_json::from_str(&s).expect("json");
             let part = v["part"].as_str().unwrap_or("").to_string();
             let p = reg.iter().find(|p| p.prop == prop && p.part == part).expect("unknown part");
+            if p.replay_fn.is_some() && std::env::var("RV_INNER").is_err() {
+                // run the case in a child: a case that aborts the process is still reported
+                let st = std::process::Command::new(std::env::current_exe().expect("exe")).args(["replay", prop, file]).env("RV_INNER", "1").status().expect("spawn replay child");
+                match st.code() {
+                    Some(c) => std::process::exit(c),
+                    None => {
+                        println!("FAIL {prop}/process-crash: the process was killed by a signal ({st:?}) while executing the case");
+                        println!("VIOLATION property={prop} replay={file}");
+                        std::process::exit(1);
+                    }
+                }
+            }
             match p.replay_fn {
                 Some(f) => std::process::exit(f(file)),
                 None => {
@@ -128,6 +144,11 @@ fn main() {
                     std::process::exit(2);
                 }
             }
+        }
+        Some("fuzz-seeds") => {
+            // golden inputs for the cargo-fuzz targets, produced with the real encoders
+            let dir = std::path::PathBuf::from(args.get(1).expect("directory"));
+            props::c19::write_fuzz_seeds(&dir);
         }
         Some("list") => {
             for p in &reg {
